@@ -207,7 +207,10 @@ fn proc_case(seed: u64, i: u64, out: &mut dyn std::io::Write) {
         };
         args.push("-M".into());
         args.push(format!("{}|-|{}", hex(path.as_bytes()), layout));
-        let consistent = spec.bias == 0 && kind != "short";
+        // every layout that maps the whole file at its file offsets holds the same bytes as the file, whatever
+        // address the image is linked at
+        // (an image without program headers says nothing about where it is linked: only bias 0 is meaningful then)
+        let consistent = kind != "short" && (spec.bias == 0 || spec.has_phdrs);
         files.push((path, layout, bytes, consistent, spec.soname_twice));
     }
     let t = match Target::spawn(&args) {
